@@ -222,28 +222,104 @@ def check(ctx) -> Result:
     rest = any(isinstance(n, ast.If) and "not in added_swaps" in src(n.test) and any("new_swaps[s2] = swaps2[s2]" == src(b) for b in n.body) for n in walk_no_nested(cmb.node))
     keep = any(isinstance(n, ast.For) and n.orelse and any(src(b) == "new_swaps[s1] = swaps1[s1]" for b in n.orelse) for n in walk_no_nested(cmb.node))
     res.frozen(rest and keep, "R-compose-earlier-then-later", "combine_mode_swap_dicts:unmatched", cmb.site(), cmb.qualname, "entries of either dictionary without a partner are carried over", "entries without a partner in the other dictionary are dropped", construct="carry-over")
-    # ---- convert_non_adj_beamsplitters
+    # ---- convert_non_adj_beamsplitters: per path of the loop body, for an element that is a BeamSplitter
+    from ..paths import Walker as _PW
+    from ..rules.rm_struct import _isinstance_truth
     cv = ctx.func(UTILS, "convert_non_adj_beamsplitters")
-    apps = sorted(_appends(cv.node, "new_spec"), key=lambda c: c.lineno)
-    bsif = [n for n in walk_no_nested(cv.node) if isinstance(n, ast.If) and "isinstance(spec, BeamSplitter)" in src(n.test)]
-    if not bsif:
-        raise AnalysisError("convert_non_adj_beamsplitters: beam splitter branch not found")
-    inb = sorted([a for a in apps if a in list(ast.walk(bsif[0])) and not any(a in list(ast.walk(o)) for o in bsif[0].orelse)], key=lambda c: c.lineno)
-    kinds = [src(a.args[0].func) if isinstance(a.args[0], ast.Call) else src(a.args[0]) for a in inb]
-    res.add(kinds == ["ModeSwaps", "BeamSplitter", "ModeSwaps"], "R-swap-bs-unswap", "convert_non_adj_beamsplitters", cv.site(bsif[0]), cv.qualname, "swap, adjacent beam splitter, swap back", f"replacement sequence is {kinds}", construct=str(kinds))
-    inv = [a for a in bsif[0].body if isinstance(a, ast.Assign) and src(a.targets[0]) == "swaps" and isinstance(a.value, ast.DictComp)]
-    okinv = bool(inv) and len(inb) == 3 and inb[1].lineno < inv[-1].lineno < inb[2].lineno and src(inv[-1].value).replace(" ", "") == "{v:kfork,vinswaps.items()}"
-    res.add(okinv, "R-swap-bs-unswap", "convert_non_adj_beamsplitters:inverse", cv.site(bsif[0]), cv.qualname, "the third component is the key/value inversion of the first", "the closing swap is not the inverse of the opening swap", construct=src(inv[-1]) if inv else "")
-    bs = inb[1].args[0] if len(inb) == 3 else None
-    okbs = bs is not None and [src(a) for a in bs.args] == ["add1", "add2", "spec.reflectivity", "spec.convention"]
-    ori = [n for n in bsif[0].body if isinstance(n, ast.If) and src(n.test).replace(" ", "") == "spec.mode_1>spec.mode_2" and any(src(b).replace(" ", "").replace("(", "").replace(")", "") == "add1,add2=add2,add1" for b in n.body)]
-    base = any(src(a).replace(" ", "").replace("(", "").replace(")", "") == "add1,add2=mid,mid+1" for a in bsif[0].body)
-    res.add(okbs and bool(ori) and base, "R-swap-bs-unswap", "convert_non_adj_beamsplitters:orientation", cv.site(bsif[0]), cv.qualname, "adjacent pair (mid, mid+1), swapped iff the original modes were, same reflectivity and convention", "the adjacent beam splitter does not keep the orientation / reflectivity / convention of the original", construct=src(bs) if bs is not None else "")
-    grp = [n for n in walk_no_nested(cv.node) if isinstance(n, ast.If) and "isinstance(spec, Group)" in src(n.test)] + [o for n in walk_no_nested(cv.node) if isinstance(n, ast.If) for o in n.orelse if isinstance(o, ast.If) and "isinstance(spec, Group)" in src(o.test)]
-    okg = bool(grp) and any(isinstance(a, ast.Assign) and src(a.targets[0]) == "spec.circuit_spec" and "convert_non_adj_beamsplitters(spec.circuit_spec)" in src(a.value) for a in grp[0].body)
-    res.add(okg, "H1-recursion-into-groups", "convert_non_adj_beamsplitters", cv.site(), cv.qualname, "groups are rewritten recursively", "beam splitters inside groups are not rewritten", construct="group recursion")
-    adj = src(bsif[0].test).replace(" ", "")
-    res.add("abs(spec.mode_2-spec.mode_1)!=1" in adj or "abs(spec.mode_1-spec.mode_2)!=1" in adj, "R-swap-bs-unswap", "convert_non_adj_beamsplitters:trigger", cv.site(bsif[0]), cv.qualname, "every beam splitter with |mode_2 - mode_1| != 1 is replaced", f"replacement condition is `{src(bsif[0].test)}`", construct=src(bsif[0].test))
+    loops_cv = [l for l in cv.node.body if isinstance(l, ast.For) and isinstance(l.target, ast.Name)]
+    if not loops_cv:
+        res.frozen(False, "R-swap-bs-unswap", "convert_non_adj_beamsplitters", cv.site(), cv.qualname, "", "loop over the component list not recognised", construct="")
+    else:
+        lp_cv = loops_cv[0]
+        el = lp_cv.target.id
+        bs_mro = {c.name for c in ctx.ix.mro(ctx.ix.cls("BeamSplitter"))}
+        w = _PW(el, lambda t: _isinstance_truth(ctx, t, el, bs_mro))
+        pths = w.run(lp_cv.body)
+        def adj_cond(p_):
+            """truth of `the beam splitter is not on adjacent modes` on this path, or None"""
+            for k, v in p_.cond.items():
+                if k.startswith("abs(") and (f"{el}.mode_1" in k and f"{el}.mode_2" in k):
+                    if k.endswith("!=1"):
+                        return v
+                    if k.endswith("==1"):
+                        return not v
+            return None
+        def inv_cond(p_):
+            for k, v in p_.cond.items():
+                if k in (f"{el}.mode_1>{el}.mode_2", f"{el}.mode_2<{el}.mode_1"):
+                    return v
+                if k in (f"{el}.mode_1<{el}.mode_2", f"{el}.mode_2>{el}.mode_1", f"{el}.mode_1<={el}.mode_2", f"{el}.mode_2>={el}.mode_1"):
+                    return not v
+            return None
+        n_triple = 0
+        problems, undecided = [], []
+        orient_seen = set()
+        for p_ in pths:
+            if p_.end == "raise":
+                continue
+            evs = [e for e in p_.events]
+            kinds_ = [e[2] if e[0] == "append" else "repeat:" + str(e[2]) for e in evs]
+            nonadj = adj_cond(p_)
+            if len(evs) == 1 and evs[0][0] == "append" and evs[0][2] is None and evs[0][3] == [el]:
+                if nonadj is True:
+                    problems.append((evs[0][4], "a beam splitter on non-adjacent modes is carried over unchanged"))
+                continue
+            if kinds_ != ["ModeSwaps", "BeamSplitter", "ModeSwaps"]:
+                problems.append((evs[0][4] if evs else lp_cv, f"replacement sequence is {kinds_}, not swap - adjacent beam splitter - swap back"))
+                continue
+            n_triple += 1
+            if nonadj is None:
+                undecided.append("condition under which a beam splitter is replaced not recognised")
+            elif nonadj is False:
+                problems.append((evs[0][4], "a beam splitter on adjacent modes is replaced"))
+            s_in, s_out = evs[0][3], evs[2][3]
+            if len(s_in) != 1 or len(s_out) != 1:
+                undecided.append("swap arguments not recognised")
+            elif s_out[0] != f"inv({s_in[0]})":
+                if s_out[0] == s_in[0]:
+                    problems.append((evs[2][4], "the closing swap is the opening swap again, not its inverse: for a span of three or more modes the intermediate modes are not returned to their places"))
+                else:
+                    undecided.append(f"closing swap `{s_out[0]}` not recognised as the key/value inversion of `{s_in[0]}`")
+            args = evs[1][3]
+            if len(args) < 4:
+                undecided.append("arguments of the adjacent beam splitter not recognised")
+            else:
+                a1, a2, r_, c_ = args[:4]
+                if (r_, c_) != (f"{el}.reflectivity", f"{el}.convention"):
+                    problems.append((evs[1][4], f"the adjacent beam splitter is built with ({r_}, {c_}) instead of the reflectivity and convention of the original"))
+                inv_ = inv_cond(p_)
+                up = a2 == f"{a1}+1" or a2 == f"1+{a1}"
+                down = a1 == f"{a2}+1" or a1 == f"1+{a2}"
+                if not (up or down):
+                    undecided.append(f"modes of the adjacent beam splitter ({a1}, {a2}) not recognised as (mid, mid+1)")
+                elif inv_ is None:
+                    undecided.append("orientation test (mode_1 > mode_2) not found on the path")
+                else:
+                    orient_seen.add(inv_)
+                    if (inv_ and not down) or (not inv_ and not up):
+                        problems.append((evs[1][4], f"the adjacent beam splitter is placed on ({a1}, {a2}) when mode_1 {'>' if inv_ else '<'} mode_2: the orientation of the original is not kept (matters for the asymmetric 'H' convention)"))
+        if w.overflow:
+            undecided.append("too many paths")
+        if n_triple == 0 and not problems:
+            res.frozen(False, "R-swap-bs-unswap", "convert_non_adj_beamsplitters", cv.site(lp_cv), cv.qualname, "", "no path appends swap - beam splitter - swap", construct="")
+        elif problems:
+            seen_msgs = set()
+            for node_, msg in problems:
+                if msg in seen_msgs:
+                    continue
+                seen_msgs.add(msg)
+                res.bad("R-swap-bs-unswap", "convert_non_adj_beamsplitters", cv.site(node_), cv.qualname, msg, construct=src(node_)[:120])
+        elif undecided:
+            res.frozen(False, "R-swap-bs-unswap", "convert_non_adj_beamsplitters", cv.site(lp_cv), cv.qualname, "", "; ".join(sorted(set(undecided))), construct="")
+        else:
+            res.ok("R-swap-bs-unswap", "convert_non_adj_beamsplitters", cv.site(lp_cv), cv.qualname, f"on all {n_triple} replacement paths: swap S, beam splitter on (mid, mid+1) oriented like the original with its reflectivity and convention, swap inv(S); adjacent beam splitters are kept")
+        res.count("bs_replacement_paths", n_triple)
+        # groups are rewritten recursively (for an element that is a Group, some path assigns the recursive result)
+        rec = [a for a in ast.walk(lp_cv) if isinstance(a, ast.Assign) and isinstance(a.targets[0], ast.Attribute) and a.targets[0].attr == "circuit_spec" and isinstance(a.value, ast.Call) and src(a.value.func) == cv.name]
+        if rec:
+            res.ok("H1-recursion-into-groups", "convert_non_adj_beamsplitters", cv.site(rec[0]), cv.qualname, "groups are rewritten recursively")
+        else:
+            res.bad("H1-recursion-into-groups", "convert_non_adj_beamsplitters", cv.site(), cv.qualname, "beam splitters inside groups are not rewritten (no recursive call stores into <group>.circuit_spec)", construct="group recursion")
     # ---- unpack_circuit_spec
     up = ctx.func(UTILS, "unpack_circuit_spec")
     wl = [n for n in walk_no_nested(up.node) if isinstance(n, ast.While)]
